@@ -228,6 +228,52 @@ def drop_attrs(text, keep_re=r"^#\[(derive|repr|verifier)"):
     return "".join(out)
 
 
+def apply_cfg(text, features):
+    """evaluate `#[cfg(...)]` attributes on struct fields, statements and blocks inside an item: a false one removes its
+    target (block `{..}`, or up to the next `;` / `,` at depth 0), a true one only loses the attribute"""
+    from rustlex import eval_cfg
+    feats = set(features)
+    while True:
+        toks = lex(text)
+        mm = match_map(toks)
+        done = True
+        for i, t in enumerate(toks):
+            if t.text == "#" and i + 1 < len(toks) and toks[i + 1].text == "[" and toks[i + 2].text == "cfg":
+                k = mm[i + 1]
+                expr = norm(text[toks[i + 3].start + 1:toks[mm[i + 3]].start]).replace(" ", "")
+                val = eval_cfg(expr, feats)
+                j = k + 1
+                if val:
+                    text = text[:t.start] + text[toks[k].end:]
+                    done = False
+                    break
+                # find the target's end
+                if toks[j].text == "{":
+                    end = toks[mm[j]].end
+                else:
+                    depth_angle = 0
+                    while j < len(toks):
+                        tt = toks[j]
+                        if tt.text in ("(", "[", "{"):
+                            j = mm[j]
+                        elif tt.text == "<":
+                            depth_angle += 1
+                        elif tt.text == ">" :
+                            depth_angle = max(0, depth_angle - 1)
+                        elif tt.text == ";" or (tt.text == "," and depth_angle == 0):
+                            break
+                        elif tt.text in (")", "]", "}"):
+                            j -= 1
+                            break
+                        j += 1
+                    end = toks[min(j, len(toks) - 1)].end
+                text = text[:t.start] + text[end:]
+                done = False
+                break
+        if done:
+            return text
+
+
 def drop_vis(text):
     return re.sub(r"\bpub\s*(\((crate|super|in [^)]*)\))?\s*", "pub ", re.sub(r"\bpub\s*\((crate|super)\)\s*", "pub ", text))
 
@@ -251,7 +297,7 @@ class Emitted:
         return "\n".join(self.lines) + "\n"
 
 
-def splice_fn(it_spec, item, contract, unit, em, extraction, active=None):
+def splice_fn(it_spec, item, contract, unit, em, extraction, active=None, features=()):
     """emit one function"""
     key = it_spec["key"]
     src_sig = strip_comments(item.sig)
@@ -278,11 +324,12 @@ def splice_fn(it_spec, item, contract, unit, em, extraction, active=None):
         sig = it_spec["sig_prefix"] + " " + sig.lstrip()
     # ---- body
     body = src_body if not it_spec.get("assumed") else "{ unimplemented!() }"
+    body = apply_cfg(body, features)
     body = drop_use_stmts(body)
     log = []
     body = apply_rules(body, it_spec.get("pre_body_rules", []))
     if it_spec.get("lower", True):
-        body = lower.lower_body(body, log=log)
+        body = lower.lower_body(body, log=log, ctx=dict(mut_iter_vars=it_spec.get("mut_iter_vars", ())))
     body = lower.rewrite_macros(body, unit.get("macro_rules", {}))
     body = lower.rewrite_methods(body, dict(unit.get("method_renames", {}), **it_spec.get("method_renames", {})))
     body = apply_rules(body, it_spec.get("body_rules", []))
@@ -445,9 +492,9 @@ def emit_body(body, key, em):
         em.add(line, item=key, part="body")
 
 
-def emit_plain(it_spec, item, unit, em, extraction):
+def emit_plain(it_spec, item, unit, em, extraction, features=()):
     key = it_spec["key"]
-    text = strip_comments(item.text)
+    text = apply_cfg(strip_comments(item.text), features)
     text = rewrite_derives(text)
     text = drop_attrs(text)
     text = drop_vis(text)
@@ -526,9 +573,9 @@ def generate(unit_dir, features=("parallel", "shred-derive"), mode="T", active=N
                 used.add(key)
             if c is None and it_spec.get("need_contract", True):
                 raise Unsupported("no contract for %s" % key)
-            splice_fn(it_spec, item, c, unit, em, extraction, active)
+            splice_fn(it_spec, item, c, unit, em, extraction, active, features)
         else:
-            emit_plain(it_spec, item, unit, em, extraction)
+            emit_plain(it_spec, item, unit, em, extraction, features)
     if cur_owner is not None:
         em.add("}", part="gen")
     unused = set(contracts) - used
